@@ -78,6 +78,7 @@ def check_coherent_arm(g, fx, Mb, label, tool=None):
 class ArmC(Contract):
     prop = 'C05'
     n = 1
+    fixed_geometry = False
     tol = 1e-7
     max_paths = 300
     timeout = 40.0
@@ -90,7 +91,9 @@ class ArmC(Contract):
 
     @property
     def shape_bound(self):
-        return '%d joint(s), unit rotation axes' % self.n
+        if self.fixed_geometry:
+            return 'one fixed %d-joint geometry (rational screws, home pose); all base poses / joint values' % self.n
+        return '%d joint(s), fully symbolic unit-axis screws, home pose and joint positions' % self.n
 
 
 class _ArmInit(ArmC):
@@ -101,7 +104,7 @@ class _ArmInit(ArmC):
     prop = ('C05', 'C14')
 
     def run(self, g, fn, args, kwargs):
-        fx = ArmFixture(g, self.n)
+        fx = ArmFixture(g, self.n, fixed_geometry=self.fixed_geometry)
         return fx
 
     def post(self, g, fx, args, kwargs):
@@ -123,7 +126,7 @@ class _ArmFK(ArmC):
     base_identity = True
 
     def run(self, g, fn, args, kwargs):
-        fx = ArmFixture(g, self.n, base_identity=self.base_identity)
+        fx = ArmFixture(g, self.n, base_identity=self.base_identity, fixed_geometry=self.fixed_geometry)
         th = fx.thetas(g)
         self.th_given = th.copy()
         T1 = fx.arm.FK(th)
@@ -226,7 +229,7 @@ class _ArmJac(ArmC):
     under_contract = (ARM + ':Arm.jacobian', MR + ':JacobianSpace', MR + ':JacobianBody')
 
     def run(self, g, fn, args, kwargs):
-        fx = ArmFixture(g, self.n, base_identity=True)
+        fx = ArmFixture(g, self.n, base_identity=True, fixed_geometry=self.fixed_geometry)
         th = fx.thetas(g)
         T1 = fx.arm.FK(th.copy())
         Js = fx.arm.jacobian(th.copy())
@@ -257,7 +260,7 @@ class _ArmJacDeriv(ArmC):
     under_contract = (ARM + ':Arm.FK', MR + ':FKinSpace', MR + ':JacobianSpace')
 
     def run(self, g, fn, args, kwargs):
-        fx = ArmFixture(g, self.n, base_identity=True)
+        fx = ArmFixture(g, self.n, base_identity=True, fixed_geometry=self.fixed_geometry)
         th = fx.thetas(g)
         if not g.symbolic:
             return fx, th, None, fx.arm.jacobian(th.copy())
@@ -314,7 +317,7 @@ class _ArmStatics(ArmC):
     under_contract = ('basic_robotics.kinematics.robot_model:Robot.velocityAtEndEffector',)
 
     def run(self, g, fn, args, kwargs):
-        fx = ArmFixture(g, self.n, base_identity=True)
+        fx = ArmFixture(g, self.n, base_identity=True, fixed_geometry=self.fixed_geometry)
         th = fx.thetas(g)
         F = g.arr(g.reals('F', 6)).reshape((6, 1))
         rate = g.arr(g.reals('r', self.n))
@@ -401,16 +404,22 @@ def _mk(name, base, ns=(1, 2), tiers=None, **kw):
         register(type('%s_%d' % (name, n), (base,), d))
 
 
-_mk('Arm_init', _ArmInit, tiers={2: 'thorough'})
-_mk('Arm_FK', _ArmFK, tiers={2: 'thorough'})
+# quick tier: one fixed rational geometry with 2 joints, everything else symbolic; thorough tier: fully symbolic geometry
+_mk('Arm_init_fixed_geometry', _ArmInit, ns=(2,), fixed_geometry=True)
+_mk('Arm_init', _ArmInit, tiers={1: 'thorough', 2: 'thorough'})
+_mk('Arm_FK_fixed_geometry', _ArmFK, ns=(2,), fixed_geometry=True)
+_mk('Arm_FK', _ArmFK, tiers={1: 'thorough', 2: 'thorough'})
 _mk('Arm_FK_any_base', _ArmFK, ns=(1,), tiers={1: 'thorough'}, base_identity=False)
 _mk('Arm_FK_clamp', _ArmFKclamp, ns=(1, 2, 3))
-_mk('Arm_move', _ArmMove, tiers={1: 'thorough', 2: 'thorough'})
 _mk('Arm_move_fixed_geometry', _ArmMove, ns=(2,), fixed_geometry=True)
+_mk('Arm_move', _ArmMove, tiers={1: 'thorough', 2: 'thorough'})
 _mk('Arm_tool_change', _ArmTool, ns=(1,), tiers={1: 'thorough'})
-_mk('Arm_jacobians', _ArmJac, tiers={2: 'thorough'})
-_mk('Arm_jacobian_is_derivative', _ArmJacDeriv, tiers={2: 'thorough'})
-_mk('Arm_statics', _ArmStatics, ns=(1,))
+_mk('Arm_jacobians_fixed_geometry', _ArmJac, ns=(2,), fixed_geometry=True)
+_mk('Arm_jacobians', _ArmJac, tiers={1: 'thorough', 2: 'thorough'})
+_mk('Arm_jacobian_is_derivative_fixed_geometry', _ArmJacDeriv, ns=(2,), fixed_geometry=True)
+_mk('Arm_jacobian_is_derivative', _ArmJacDeriv, tiers={1: 'thorough', 2: 'thorough'})
+_mk('Arm_statics_fixed_geometry', _ArmStatics, ns=(2,), fixed_geometry=True)
+_mk('Arm_statics', _ArmStatics, ns=(1,), tiers={1: 'thorough'})
 _mk('Arm_index_safety', _ArmIndex, ns=(1, 2, 3))
 
 
